@@ -1,6 +1,6 @@
 #!/bin/sh
 # usage: tools/sweep.sh "<seeds>" [tier] — runs every check at each seed on the current tree; one summary line per run.
-cd /verif
+cd "$(dirname "$0")/.."
 for S in $1; do
   for P in C01 C02 C03 C04 C05 C06 C07 C08 C09 C10 C11 C12 C13 C14 C15 C16 C17 C18 C19 C20; do
     OUT=$(bin/vcheck run $P --tier ${2:-quick} --seed $S 2>&1); RC=$?
